@@ -5,7 +5,9 @@
     [orders_pos] = every stored bond order > 0;  [geq_sel G' G] = same atoms with equal element, aromatic,
     hcount, charge and equal bond maps;  [amap_id] = atom_map is the node id;  orders are half-units. *)
 From Coq Require Import List NArith ZArith Bool.
-From SK Require Import lib.LGraph lib.C01_GraphLemmas model.C01_Model model.C01_Opts proof.C01_Proof proof.C01_OptsProof.
+From SK Require Import lib.LGraph lib.C01_GraphLemmas model.C01_Model model.C02_Model model.C01_Opts model.C01_String
+  proof.C01_Proof proof.C01_OptsProof proof.C01_StringProof proof.C01_StringHyd proof.C01_StringPipe.
+Import ListNotations.
 Local Open Scope Z_scope.
 
 (** 1. decompose (construct (G, H)) = (G, H) *)
@@ -140,3 +142,102 @@ Theorem C01_equivariant_opts : forall f : N -> N, (forall a b, f a = f b -> a = 
     (set_amap (relabel f (fst (its_decompose_S J))), set_amap (relabel f (snd (its_decompose_S J)))).
 Proof. exact equivariant_opts. Qed.
 Print Assumptions C01_equivariant_opts.
+
+(** ------------------------------------------------------------------------------------------------
+    STRING HALF (model/C01_String.v): the graph -> graph logic of rsmi_to_graph / rsmi_to_its / its_to_rsmi between the
+    RDKit calls.  [rmol] = a sanitised RDKit molecule as MolToGraph reads it (atoms in index order with symbol,
+    aromaticity, total H, charge, atom map, sorted neighbour symbols; bonds between indices); [wmol] = the RWMol content
+    GraphToMol builds (atoms with element, charge, atom map, explicit-H count; bonds with a type code).
+    [mapped_nodes] / [mapped_bonds] = the mapped atoms / the bonds between mapped atoms, keyed by atom map. *)
+
+(** 11. MolToGraph.transform(drop_non_aam=True, use_index_as_atom_map=True) in closed form: when the mapped atoms carry
+        distinct maps and no two bonds join the same pair of maps, the graph has exactly the mapped atoms as nodes (id =
+        atom map, in atom order, labels = the atom's), exactly the bonds between mapped atoms as edges, unmapped atoms and
+        their bonds are dropped; atom_map = node id; the index table sends atom i to its map iff it is mapped *)
+Theorem C01_mol_to_graph : forall m : rmol,
+  NoDup (map fst (mapped_nodes m)) -> simple (mapped_bonds m) ->
+  mol_to_graph true true m = Some (LG (mapped_nodes m) (mapped_bonds m)) /\
+  amap_id (LG (mapped_nodes m) (mapped_bonds m)) /\
+  (forall n a, In (n, a) (mapped_nodes m) <->
+     exists x, In x (rm_atoms m) /\ is_mapped x = true /\ n = ra_map x /\ a = atom_node x) /\
+  (forall i, lookup_idx i (mapped_ix m) =
+     match nth_error (rm_atoms m) i with Some a => if is_mapped a then Some (ra_map a) else None | None => None end).
+Proof. exact mol_to_graph_full. Qed.
+Print Assumptions C01_mol_to_graph.
+
+(** 12. implicit_hydrogen(graph, preserve): a hydrogen atom stays iff its atom_map is preserved; every other atom stays
+        with hcount + (hydrogen neighbours) - (preserved hydrogen neighbours), i.e. the decrement is once per preserved
+        hydrogen bonded to it; the bonds are exactly the bonds between remaining atoms; and the hydrogen total (hcount +
+        hydrogen neighbours) of every non-hydrogen atom is unchanged, all its other labels too *)
+Theorem C01_implicit_hydrogen : forall (g : mgraph) (pres : list Z), wf g ->
+  let g' := implicit_hydrogen g pres in
+  (forall n, label g' n =
+     match label g n with
+     | None => None
+     | Some a => if is_H a then (if mem n (preserved g pres) then Some a else None)
+                 else Some (set_hc a (g_hc a + count_h g n - count_pres g pres n))
+     end) /\
+  (forall u v, adj g' u v = if negb (ih_removed g pres u) && negb (ih_removed g pres v) then adj g u v else None) /\
+  (forall n a, label g n = Some a -> is_H a = false ->
+     exists a', label g' n = Some a' /\ g_hc a' + count_h g' n = g_hc a + count_h g n /\
+                g_el a' = g_el a /\ g_arom a' = g_arom a /\ g_ch a' = g_ch a /\ g_nb a' = g_nb a /\ g_amap a' = g_amap a).
+Proof. exact implicit_hydrogen_spec. Qed.
+Print Assumptions C01_implicit_hydrogen.
+
+(** 13. GraphToMol.graph_to_mol(use_h_count=True) up to the RWMol: never fails on a well-formed graph; one atom per node
+        in node order with (element, charge, atom map, hcount as explicit H count); one bond per edge in edge order, joining
+        the atoms of its two nodes, typed 1 / 2 / 3 for orders 1 / 2 / 3 and AROMATIC for everything else *)
+Theorem C01_graph_to_wmol : forall g : mgraph,
+  (wf g -> graph_to_wmol g <> None) /\
+  forall w, graph_to_wmol g = Some w ->
+    fst w = map (fun p => watom_of (snd p)) (gnodes g) /\
+    length (snd w) = length (gedges g) /\
+    forall k u v o, nth_error (gedges g) k = Some (u, v, o) ->
+      exists i j, nth_error (snd w) k = Some (i, j, bond_code o) /\
+                  nth_error (node_ids g) i = Some u /\ nth_error (node_ids g) j = Some v.
+Proof. exact graph_to_wmol_spec. Qed.
+Print Assumptions C01_graph_to_wmol.
+
+(** 14. what its_to_rsmi hands to GraphToMol: the two decomposed graphs (well-formed, atom_map = id), unchanged when the
+        reaction centre has no hydrogen atom, otherwise with implicit_hydrogen applied, the preserved maps being exactly the
+        atom maps of the hydrogen atoms of the reaction centre (theorem 12 then says what happens to every other hydrogen) *)
+Theorem C01_its_to_graphs : forall I : its, wf I ->
+  let d := its_decompose I in
+  wf (fst d) /\ wf (snd d) /\ amap_id (fst d) /\ amap_id (snd d) /\
+  (forall z, In z (hlist I) <-> exists n b, label (get_rc I) n = Some b /\ i_el b = EL_H /\ z = i_amap b) /\
+  its_to_graphs I =
+    match hlist I with
+    | [] => d
+    | _ => (implicit_hydrogen (fst d) (hlist I), implicit_hydrogen (snd d) (hlist I))
+    end.
+Proof. exact its_to_graphs_spec. Qed.
+Print Assumptions C01_its_to_graphs.
+
+(** 15. the string round trip relative to RDKit ALONE (replaces the oracle-level premise of theorem 5: MolToGraph,
+        ITSGraph, its_decompose, get_rc, the hydrogen list, GraphToMol are now inside the model).  [rd_read] = parse +
+        sanitise + atom/bond getters, [rd_write] = RWMol + sanitise + MolToSmiles are parameters with the contract
+        R1 (first premise, written out): for a well-formed graph g that is the MolToGraph reading of a molecule RDKit has
+        read, if RDKit writes the RWMol of g then reading the result back gives g again.
+        Then for every balanced reaction without explicit hydrogen atoms whose two sides RDKit reads,
+        its_to_rsmi (rsmi_to_its (r >> p)) = r' >> p' reads back as the same two mapped graphs.
+        NOT proved (tested: oracle on the corpora and their rewritings): R1 itself; that its_to_rsmi succeeds; reactions
+        WITH explicit mapped hydrogens (theorems 12 and 14 give the graph-level statement: reaction-centre hydrogens stay
+        atoms, all others are folded into hcount without changing any atom's hydrogen total). *)
+Theorem C01_rsmi_pipeline : forall (str : Type) (rd_read : str -> option rmol) (rd_write : wmol -> option str),
+  (forall s0 m0 g w s, rd_read s0 = Some m0 -> wf g -> geq_sel g (graph_of m0) -> amap_id g ->
+     graph_to_wmol g = Some w -> rd_write w = Some s ->
+     exists m, rd_read s = Some m /\ (NoDup (map fst (mapped_nodes m)) /\ simple (mapped_bonds m)) /\ geq_sel (graph_of m) g) ->
+  forall r p mr mp, rd_read r = Some mr -> rd_read p = Some mp ->
+  (NoDup (map fst (mapped_nodes mr)) /\ simple (mapped_bonds mr)) ->
+  (NoDup (map fst (mapped_nodes mp)) /\ simple (mapped_bonds mp)) ->
+  let G := graph_of mr in let H := graph_of mp in
+  wf G -> wf H -> same_nodes G H -> orders_pos G -> orders_pos H ->
+  (forall n a, label G n = Some a -> is_H a = false) ->
+  forall I r' p', rsmi_to_its_s rd_read r p = Some I -> its_to_rsmi_s rd_write I = Some (r', p') ->
+  I = its_construct G H /\
+  exists mr' mp', rd_read r' = Some mr' /\ rd_read p' = Some mp' /\
+                  (NoDup (map fst (mapped_nodes mr')) /\ simple (mapped_bonds mr')) /\
+                  (NoDup (map fst (mapped_nodes mp')) /\ simple (mapped_bonds mp')) /\
+                  geq_sel (graph_of mr') G /\ geq_sel (graph_of mp') H.
+Proof. exact rsmi_pipeline. Qed.
+Print Assumptions C01_rsmi_pipeline.
